@@ -3,6 +3,19 @@
 REFLECT = "Go reflect / runtime semantics as specified in the model (DESIGN.md 3.4)"
 
 PROPS = {
+    "C02": {
+        "gens": [],
+        "lean": "Anko.Props.C02",
+        "streams": [{"name": "cancel", "n_quick": 150, "n_thorough": 1500}],
+        "trusted": ["the interpreter model mirrors every ctx.Done() poll of vm/*.go on fragment F0 (validated each run: the counting context cancels the real "
+                    "interpreter at poll k, the model at cancelAt = k, for every chosen k; result, error, trace, poll count and bindings compared)",
+                    "Go's context / select semantics; the counting context of the harness"],
+        "assumptions": ["fragment F0 for the poll-exact part; channels, goroutines and callbacks are covered by the wall-clock oracle only",
+                        "actual latency and time inside one host Go call are outside the model"],
+        "partial": ["callbacks (script function converted to a Go func) run under context.Background(): known finding, excluded from the theorems (outside F0)",
+                    "'returns within bounded time' is modelled as: after the cancelled poll no statement starts and no loop iterates (stmt_after_cancel, "
+                    "*_iteration_after_cancel, cancel_is_sticky); the remaining work is the expression in progress"],
+    },
     "C07": {
         "gens": [],
         "lean": "Anko.Props.C07",
@@ -98,6 +111,19 @@ PROPS = {
 
 # Texts for MANIFEST.json (level_claimed.text, level_note, technique, design_ref)
 MANIFEST_TEXT = {
+    "C02": {
+        "text": "Machine-checked proofs (Lean 4) over the interpreter model with an explicit context-poll counter: after the cancelled poll every "
+                "statement ends at once with the interrupt and changes nothing (no probe, binding or scope), no loop form iterates again, "
+                "cancellation is permanent (induction on fuel over all 28 model functions: cancelAt never changes, polls only grows), try "
+                "and ?? cannot swallow the interrupt, a script function called after the cancellation runs no statement of its body and "
+                "fails with 'execution interrupted'. Correspondence: a counting context cancels the real interpreter at exactly poll k and "
+                "the model at cancelAt=k for spinning cores x 17 wrappers and random programs, every chosen k; wall-clock oracle with "
+                "context.WithCancel over spinning and blocking (channel) cores in a child process.",
+        "note": "Trusted: Lean kernel; fidelity of the model's poll points (differential at poll granularity); Go runtime for channels/select. "
+                "Known finding: callbacks ignore the context.",
+        "technique": "Lean 4 proof (induction on fuel, grind) over an executable interpreter model + poll-exact differential correspondence",
+        "design_ref": "DESIGN.md section 6 (C02)",
+    },
     "C07": {
         "text": "Machine-checked proofs (Lean 4) over the interpreter model of the evaluation-order equations of every strict form (operand "
                 "lists of literals / returns / multi-assignment / fast-path calls, fixed and variadic argument lists incl. conversion for Go "
